@@ -668,6 +668,40 @@ def run(ctx):
             ctx.undec('R-DIAGFILTER', 'filter', wb1, 'filter outside the evaluated fragment')
         else:
             ctx.ok('R-DIAGFILTER', 'filter', wb1, norm(comps[0].ifs[0]))
+    # ---- R-STARTAXIS: the window origin of an axis comes from the start index of that axis
+    ctx.rule('R-STARTAXIS', 'second reader: add_lat reads STARTJ, add_lon reads STARTI (the window origin of the axis the coordinate belongs to)')
+    for fname, want in (('add_lat', 'STARTJ'), ('add_lon', 'STARTI')):
+        f_ = nm.functions.get(fname)
+        wf_ = 'src/PseudoNetCDF/%s %s' % (NB, fname)
+        if f_ is None:
+            ctx.undec('R-STARTAXIS', fname, wf_, 'function not found')
+            continue
+        got = sorted(set(const_str(c.args[1]) for c in walk_expr(f_) if isinstance(c, ast.Call) and dotted(c.func) == 'getattr' and len(c.args) >= 2 and (const_str(c.args[1]) or '').startswith('START')) |
+                     set(x.attr for x in ast.walk(f_) if isinstance(x, ast.Attribute) and x.attr.startswith('START')))
+        if got == [want]:
+            ctx.ok('R-STARTAXIS', fname, wf_, want)
+        elif not got:
+            ctx.undec('R-STARTAXIS', fname, wf_, 'no START* attribute read')
+        else:
+            bad_ = [c for c in walk_expr(f_) if isinstance(c, ast.Call) and dotted(c.func) == 'getattr' and len(c.args) >= 2 and const_str(c.args[1]) in got and const_str(c.args[1]) != want]
+            ctx.violation(Finding('R-STARTAXIS', NB, fname, api.stmt_of(bad_[0]) if bad_ else f_.body[-1], '%s takes the window origin from %s instead of %s: for a nested grid whose I and J origins differ the '
+                                  'coordinate values come from the wrong rows / columns of the global grid' % (fname, [g for g in got if g != want], want)))
+    # ---- R-TAUKEY: the table of time blocks of a tracer is keyed by the (tau0, tau1) pair
+    ctx.rule('R-TAUKEY', 'second reader: the time blocks of a tracer are keyed by (tau0, tau1) (two blocks may share a start and differ in their end)')
+    b2 = nm.func('bpch2.__init__')
+    wb2 = 'src/PseudoNetCDF/%s bpch2.__init__' % NB
+    keyst = [st for st in iter_stmts(b2.body) if isinstance(st, ast.Assign) and isinstance(st.targets[0], ast.Subscript) and isinstance(st.targets[0].value, ast.Call)
+             and isinstance(st.targets[0].value.func, ast.Attribute) and st.targets[0].value.func.attr == 'setdefault']
+    if not keyst:
+        ctx.undec('R-TAUKEY', 'outpos', wb2, 'store into the per-tracer table not found')
+    for st in keyst:
+        k_ = st.targets[0].slice
+        names_ = [norm(e) for e in k_.elts] if isinstance(k_, ast.Tuple) else [norm(k_)]
+        if any('tau0' in n_ for n_ in names_) and any('tau1' in n_ for n_ in names_):
+            ctx.ok('R-TAUKEY', 'outpos', wb2, 'key %s' % norm(k_))
+        else:
+            ctx.violation(Finding('R-TAUKEY', NB, 'bpch2.__init__', st, 'the time blocks are keyed by %s only: a later block of the same tracer with the same start (a daily mean and the whole-period mean) replaces '
+                                  'the earlier one, so the reader shows fewer time steps than the file holds' % norm(k_)))
     # ---- R-RESERVEDKEEP: the free-text RESERVED field is carried as it was read (the writer pads it on the right only)
     ctx.rule('R-RESERVEDKEEP', 'first reader: the RESERVED text of a block header is kept with its leading blanks (the writer re-pads on the right only)')
     ml = bm.func('_tracer_lookup.__missing__')
